@@ -1090,7 +1090,7 @@ fn read_additional_number_bytes(&mut self, mut length: u8)
                     self.type_and_value.number = (self.type_and_value.number << 8) | (value as u64);
                 }
                 Err(err) => {
-                    self.error(verif_format().as_str());
+                    
                 }
             }
             
@@ -1164,7 +1164,7 @@ proof {  assert forall|v: f64| encode_utf8(rv@) == encode_utf8(f64_text(v)) impl
             }
             8 => {
                 let k = self.read_string();
-                let id = self.read_u8() as usize;
+                let id = self.read_usize();
                 Data::Source(SourceCode::new(k.as_str(), id))
             }
             9 => Data::None(),
